@@ -107,7 +107,7 @@ pub fn s3(ese: bool) -> Vec<Act> {
     a.push(msg1(&format!("{n} 254.6"), set(255)));
     a.push(msg1(&format!("{n} 255.4"), set(255)));
     a.push(msg1(&format!("{n} 255.6"), U::Fail(RefErr::std(-222))));
-    a.push(msg1(&format!("{n} \"1\""), U::Fail(RefErr::std(-104))));
+    a.push(msg1(&format!("{n} \"1\""), U::Fail(RefErr::std(-104).any_of_class())));
     a.push(msg1(&format!("{n}?"), q()));
     a.push(msg1("*STB?", U::Stb));
     a.push(msg1("*CLS", U::Cls));
